@@ -66,6 +66,11 @@ Theorem C13_executed_model_is_specified_model :
   (forall i, image_to_bin_fast i = image_to_bin i) /\ (forall bs, bin_to_image_fast bs = bin_to_image bs).
 Proof. exact (conj image_to_bin_fast_eq bin_to_image_fast_eq). Qed.
 
+(* on EVERY byte string bin_to_image panics in decompress, returns None (bincode failure) or an
+   image: the model-internal outcome Stuck is reached by no input *)
+Theorem C13_decoder_never_stuck : forall bs, bin_to_image bs <> Stuck.
+Proof. exact bin_to_image_never_stuck. Qed.
+
 Print Assumptions C13_source_dimension_tables_inverse.
 Print Assumptions C13_source_layout.
 Print Assumptions C13_source_wiring.
@@ -74,3 +79,4 @@ Print Assumptions C13_format_names_injective.
 Print Assumptions C13_format_table_is_complete_and_distinct.
 Print Assumptions C13_wf_is_inhabited.
 Print Assumptions C13_executed_model_is_specified_model.
+Print Assumptions C13_decoder_never_stuck.
